@@ -189,6 +189,18 @@ func (p *gcpPicker) getSubConnRef(boundKey string) (*subConnRef, error) {
 	return p.getLeastBusySubConnRef()
 }
 
+// leastBusyReadySubConnRef returns the picker's subConnRef with the fewest
+// active streams, or nil if the picker has none. It takes no locks.
+func (p *gcpPicker) leastBusyReadySubConnRef() *subConnRef {
+	var minScRef *subConnRef
+	for _, scRef := range p.scRefs {
+		if minScRef == nil || scRef.getStreamsCnt() < minScRef.getStreamsCnt() {
+			minScRef = scRef
+		}
+	}
+	return minScRef
+}
+
 // Must be called holding the picker mutex lock.
 func (p *gcpPicker) getLeastBusySubConnRef() (*subConnRef, error) {
 	minScRef := p.scRefs[0]
